@@ -12,6 +12,8 @@ Decides:
  T separator position   the `--` marker that is pre-consumed is the item at the position it was tokenized into (one argv word can
                         expand into several items, so a word index would make the outcome depend on which named spellings
                         precede `--`): shared with C09.
+ H help/version        when both the help and the version flag are on the line the answer is help, whichever is written first: the
+                        two lookups are sequential, not alternatives decided by position (shared with C10).
  P positionals skip     take_positional_word considers Word / PosWord only and skips every named item.
 Does not decide: invariance of the outcome under all permutations (value-level)."""
 from core import *
@@ -22,7 +24,7 @@ import consumers, c07, c08, c09
 LEVEL = 'other'
 EXPLANATION = __doc__
 ASSUMPTIONS = []
-FLOORS = {'S.search': 18, 'I.index-opaque': 2, 'M.matcher': 8, 'C.command-scope': 1, 'T.separator': 2}
+FLOORS = {'S.search': 18, 'I.index-opaque': 2, 'M.matcher': 8, 'C.command-scope': 1, 'T.separator': 2, 'H.help-version-order': 3}
 
 def run(ctx):
     cfgs = ['none', 'all']
@@ -33,6 +35,8 @@ def run(ctx):
         ctx.guard(consumers.accept_sets, ctx, cfg, fs, 'M.matcher')
         ctx.guard(c07.ledger_only, ctx, cfg, fs, 'I.index-opaque')
         ctx.guard(c08.keep_only, ctx, lambda: c09.tokenizer(ctx, cfg, fs), lambda o: 'marker-' in o.key, 'T.separator')
+        import c10
+        ctx.guard(c08.keep_only, ctx, lambda: c10.info(ctx, cfg, fs), lambda o: True, 'H.help-version-order')
         ctx.guard(c08.keep_only, ctx, lambda: c08.matched(ctx, cfg, fs), lambda o: 'scope-from-name-to-end' in o.key, 'C.command-scope')
         for nm in ('take_flag', 'take_arg'):
             b = ctx.look(fs.body(consumers.CONSUMERS[nm][0]))
